@@ -1004,6 +1004,12 @@ def compare(case, run, ans: str) -> str | None:
     """None when implementation and model agree, else a description of the first difference."""
     lines = impl_lines(case, run)
     model = split_model(ans)
+    # An MDAChain WITHOUT cache that the enclosing process does not differentiate still reaches its
+    # _compute_jacobian (Discipline.linearize only returns early through the cache) with empty name lists,
+    # which its inner chain reads as "everything": more partials than selected are computed (harmless:
+    # pruned_eq_full only needs the selection to be covered).  Superset accepted for these leaves.
+    ids = {id(l): i for i, l in enumerate(leaves(case["proc"]))}
+    relaxed = {ids[id(l)] for n in _all_nodes(case["proc"]) if n["t"] == "M" and n.get("cache", "SimpleCache") == "" for l in leaves(n)}
     for k, line in enumerate(lines):
         if k >= len(model):
             return f"request {k}: model gave no answer"
@@ -1013,6 +1019,8 @@ def compare(case, run, ans: str) -> str | None:
         calls = run["steps"][k].get("calls", {})
         for lid, (ci, co) in calls.items():
             mi, mo = msel.get(lid, ([], []))
+            if lid in relaxed and set(mi) <= set(ci) and set(mo) <= set(co):
+                continue
             if ci != mi or co != mo:
                 return f"request {k}: leaf {lid} was asked to differentiate outputs {co} wrt inputs {ci}, model selects {mo} wrt {mi}"
     return None
